@@ -149,6 +149,9 @@ def catalogue(hs, tier, sd):
         ('Coordinate(0,0)', C(0, 0)), ('Coordinate(0.0,-0.0)', C(0.0, -0.0)), ('Coordinate(1,2)', C(1, 2)),
         ('Coordinate(1.0,2.0)', C(1.0, 2.0)), ('Coordinate(1.5,-2.5)', C(1.5, -2.5)), ('Coordinate(90,180)', C(90, 180)),
         ('Coordinate(nan,0)', C(nan, 0)), ('Coordinate(2,1)', C(2, 1)),
+        # apart only beyond the sixth decimal (what the writers print): two different values
+        ('Coordinate(1.5000001,-2.5)', C(1.5000001, -2.5)), ('Coordinate(1.5000002,-2.5)', C(1.5000002, -2.5)),
+        ('Coordinate(1.5,-2.50000004)', C(1.5, -2.50000004)),
         ('[]', []), ('[1]', [1]), ('[1.0]', [1.0]), ('[True]', [True]), ("['a']", ['a']), ("[Uri('a')]", [U('a')]),
         ("[Bin('a')]", [B('a')]), ('[MARKER]', [M]), ('[None]', [None]), ('[nan]', [nan]),
         ("[Q(1,'m')]", [Q(1, 'm')]), ("[Q(1,'s')]", [Q(1, 's')]), ("[1,'a']", [1, 'a']), ("['a',1]", ['a', 1]),
